@@ -31,7 +31,7 @@ UNITS += _take('C16', ['q_position', 'q_push', 'q_close', 'q_advance', 'q_subscr
 UNITS += _take('C11', ['cur_await_ready', 'is_stopped', 'any_enqueued', 'enqueue', 'worker', 'stop'])
 UNITS += _take('C09', ['qi_push', 'qi_pop', 'qi_unblock_pop', 'qi_size', 'qi_empty', 'qv_push', 'qv_pop'])
 UNITS += _take('C10', ['lq_push', 'lq_pop', 'lq_unblock_push', 'lq_size', 'lq_empty'])
-UNITS += _take('C12', ['schedule', 'get_expired', 'remove', 'interval_stop_cb'])
+UNITS += _take('C12', ['schedule', 'get_expired', 'remove', 'interval_stop_cb', 'start_future'])
 # thorough: every remaining non-bounded unit of the lock-based properties
 for _p in ('C09', 'C10', 'C11', 'C12', 'C16'):
     _have = set(u['name'] for u in UNITS)
